@@ -418,14 +418,11 @@ func genCase(r *Rng, extreme bool) Input {
 	if r.Chance(1, 10) {
 		in.Params.Thr = fmt.Sprint(330000000000000001 + r.Intn(669999999)*1000000000)
 	}
-	if r.Chance(1, 40) {
-		in.Params.Thr = "1500000000000000000"
-	}
-	if extreme && r.Chance(1, 3) {
-		in.Params.Thr = decLimit().String()
-	}
 	in.Params.MinV = []uint64{1, 1, 1, 1, 1, 2, 2, 3, 4, uint64(n + 1)}[r.Intn(10)]
 	in.Params.Exp = []uint64{0, 1, 3, 5, 10, 100, 900}[r.Intn(7)]
+	if r.Chance(1, 12) { // since 48f939b no wrap-around: such rates never expire
+		in.Params.Exp = []uint64{18446744073709551615, 9223372036854775808, 18446744073709551615 - uint64(r.Intn(50))}[r.Intn(3)]
+	}
 	in.Params.Band = []string{"0", "20000000000000000", "20000000000000000", "500000000000000000", "1000000000000000000", "1"}[r.Intn(6)]
 	// height: mostly a period end
 	k := int64(r.Range(1, 40))
@@ -551,20 +548,20 @@ func openers() []Input {
 	// zero-power bonded validator with a positive rate + one abstainer: only power-carrying votes decide
 	out = append(out, Input{Vals: []Val{{Tok: "1000000", Undel: "1"}, one}, Params: base, WL: []int{0}, H: 4, Rates: []Rate{},
 		Votes: []Vote{{0, []Tuple{{0, five(9)}}}, {1, []Tuple{{0, five(4)}}}}})
-	// outside the overflow-free domain (model must predict the implementation's behaviour):
-	// ExpirationBlocks = 2^64-1 wraps the uint64 addition: the fresh rate is dropped
+	// the shapes that misbehaved before the fixes 48f939b / 66a0ce3 (kept as regression openers):
+	// ExpirationBlocks = 2^64-1 used to wrap the uint64 addition and drop the fresh rate; now it is kept
 	pw := base
 	pw.Exp = 18446744073709551615
 	out = append(out, Input{Vals: []Val{one}, Params: pw, WL: []int{0}, H: 9, Votes: []Vote{},
 		Rates: []Rate{{0, five(5), 5}}})
-	// a single validator votes the largest Dec: Tally overflows
+	// a single validator votes the largest Dec: Tally used to overflow in median.Add(spread); now it is published
 	out = append(out, Input{Vals: []Val{one}, Params: base, WL: []int{0}, H: 4, Rates: []Rate{},
 		Votes: []Vote{{0, []Tuple{{0, decLimit().String()}}}}})
-	// VoteThreshold = largest Dec, bonded power 2: MulInt64 overflows
+	// VoteThreshold exactly 1.0 (the largest accepted value), bonded power 3: all of it must vote
 	pt := base
-	pt.Thr = decLimit().String()
-	out = append(out, Input{Vals: []Val{{Tok: "2000000", Undel: "0"}}, Params: pt, WL: []int{0}, H: 4, Rates: []Rate{},
-		Votes: []Vote{{0, []Tuple{{0, five(5)}}}}})
+	pt.Thr = "1000000000000000000"
+	out = append(out, Input{Vals: []Val{one, one, one}, Params: pt, WL: []int{0, 1}, H: 4, Rates: []Rate{},
+		Votes: []Vote{{0, []Tuple{{0, five(5)}, {1, five(2)}}}, {1, []Tuple{{0, five(5)}, {1, five(2)}}}, {2, []Tuple{{0, five(6)}}}}})
 	return out
 }
 
